@@ -79,7 +79,7 @@ fn gen(rng: &mut Rng, tier: Tier) -> Vec<Case> {
     for i in 0..n_cases {
         let k = if i % 4 == 0 { 2 } else { 3 };
         let base = match rng.below(5) { 0 => u64::MAX - 12, 1 => rng.below(1 << 50), _ => 0 };
-        let chroms: Vec<&str> = (0..2).map(|_| *rng.pick(CHROMS)).collect();
+        let chroms: Vec<&str> = gen_chroms(rng, 2);
         let mut xs: Vec<Rec> = vec![];
         for _ in 0..k {
             let ch = if rng.chance(3, 4) { chroms[0] } else { chroms[1] };
